@@ -29,7 +29,7 @@ ASSUMPTIONS = [
 ]
 TIERS = {
     "quick": {"shards": 16, "cases": 800, "calls": 50, "timeout": 300},
-    "thorough": {"shards": 16, "cases": 40000, "calls": 60, "timeout": 3000},
+    "thorough": {"shards": 16, "cases": 300000, "calls": 60, "timeout": 3000},
 }
 FLOORS = {
     "quick": {"counts": {"calls": 30000, "wire_events_checked": 8000, "interlock_rejections": 3000,
